@@ -158,6 +158,7 @@ InitAny == /\ known \in AllKnown
            /\ prev = known
            /\ added = Zero /\ removed = Zero /\ moves = {} /\ rebuilt = FALSE
            /\ act = [name |-> "Any"]
+InitBoth == Init \/ InitAny          \* base case and inductive step in one TLC run
 NextOnce == act.name # "Refresh" /\ Next
 
 -----------------------------------------------------------------------------
